@@ -593,7 +593,7 @@ func runHandshake(k int) {
 
 func main() {
 	run = vx.Begin("C11", "exploration",
-		"PRNG message sequences (1-50 messages of every kind, boundary field values, bitfields 0-70000 bits, metadata payloads 0-16384, PEX 0-200 entries) written by the real peerwriter under 5 fragmentation patterns; raw bytes compared with an independent reference encoding; 3/4 of the sequences are forwarded through a second fragmenting pipe into the client's reader; BlockUploaded sum vs piece payload bytes; handshake bytes via Dial/Accept. distinct = distinct (byte stream, fragmentation, path)")
+		"PRNG message sequences (1-50 messages of every kind, boundary field values, bitfields 0-70000 bits, metadata payloads 0-16384, PEX 0-200 entries) written by the real peerwriter under 5 fragmentation patterns; raw bytes compared with an independent reference encoding; 3/4 of the sequences are forwarded through a second fragmenting pipe into the client's reader; BlockUploaded sum vs piece payload bytes, also when the transport fails a write at a chosen byte offset inside a piece message (header, boundary, payload); handshake bytes via Dial/Accept. distinct = distinct (byte stream, fragmentation, path)")
 	logger.Disable()
 	n := run.N(6000, 400000)
 	vx.Parallel(n, runtime.NumCPU()*2, func(k int) {
@@ -605,6 +605,12 @@ func main() {
 	if cut := run.GetCount("sequences_cut_short_by_read_watchdog"); cut > int64(n/100+3) {
 		run.Violation("writer-stalls", fmt.Sprintf("%d of %d sequences were not written out completely within the 4 s read watchdog although every byte delivered was right", cut, n), nil)
 	}
+	vx.Parallel(run.N(600, 30000), 16, func(k int) {
+		pt, ok := vx.Try(func() { runFaultSequence(k) })
+		if !ok {
+			run.Violation("panic", fmt.Sprintf("fault sequence %d: panic %s", k, pt), map[string]any{"fault_sequence": k})
+		}
+	})
 	nh := run.N(300, 20000)
 	vx.Parallel(nh, 16, func(k int) {
 		pt, ok := vx.Try(func() { runHandshake(k) })
